@@ -167,6 +167,10 @@ def parseSteps (st : String) : List Op :=
   if nth f 0 == "X" then
     [.umount (pathName (nth f 1)),
      .mount (parseBk (nth f 3) (nth f 5) (nth f 6)) (pathName (nth f 2)) (parseMap (nth f 4))]
+  else if nth f 0 == "W" then
+    -- `W:<umount path>:<mount fields>`: the mount (it holds the lock), then the umount
+    [.mount (parseBk (nth f 3) (nth f 5) (nth f 6)) (pathName (nth f 2)) (parseMap (nth f 4)),
+     .umount (pathName (nth f 1))]
   else if nth f 0 == "Z" then
     -- `Z:<init bits>:<mount fields>`: INIT, then the mount
     [.init (natD (nth f 1)),
